@@ -30,7 +30,7 @@ def build_file(ctx, nlabels, with_alias=True, top_bit=False, one_digit=False):
     bits = []
     text_lines = []
     for i in range(nlabels):
-        if top_bit and i == nlabels - 1:
+        if (top_bit is True and i == nlabels - 1) or (top_bit == 'first' and i == 0):
             digits = ['6', '3']
             val = z3.IntVal(63)
         else:
@@ -87,10 +87,10 @@ def _setup(ctx, nlabels, with_alias=True, top_bit=False, one_digit=False):
     return sdss, defs
 
 
-def ob_flagval(nlabels, subset, use_alias):
+def ob_flagval(nlabels, subset, use_alias, top='last'):
     def fn(ctx):
-        sdss, defs = _setup(ctx, nlabels, top_bit=True)
-        d = {'fn': 'flagval', 'nlabels': nlabels, 'subset': list(subset), 'alias': use_alias}
+        sdss, defs = _setup(ctx, nlabels, top_bit=(True if top == 'last' else 'first'))
+        d = {'fn': 'flagval', 'nlabels': nlabels, 'subset': list(subset), 'alias': use_alias, 'top': top}
         ctx.detail = d
         grp = sym_case(ctx, 'ALIASG' if use_alias else GROUP, 'g')
         names = [sym_case(ctx, LABELS[i], 'l%d' % i) for i in subset]
@@ -114,7 +114,7 @@ def ob_flagval(nlabels, subset, use_alias):
         again = sdss.sdss_flagval(GROUP, got) if got else np.uint64(0)
         at = again.term if isinstance(again, BV) else z3.BitVecVal(int(again), 64)
         ctx.require(at == vt, 'names -> value -> names -> value is the identity on defined bits', d)
-    return Obligation('flagval labels=%d subset=%s alias=%d' % (nlabels, list(subset), use_alias), fn,
+    return Obligation('flagval labels=%d subset=%s alias=%d top=%s' % (nlabels, list(subset), use_alias, top), fn,
                       bounds='%d labels with symbolic bit numbers (one at bit 63), subset %s' % (nlabels, list(subset)), max_paths=400000, max_seconds=1700)
 
 
@@ -189,6 +189,7 @@ def obligations(tier, seed):
     obs = []
     obs.append(ob_flagval(2, (0,), False))
     obs.append(ob_flagval(2, (1, 0), True))
+    obs.append(ob_flagval(2, (0, 1), False, top='first'))      # rows of the file NOT in ascending bit order
     obs.append(ob_flagval(3, (2, 0), False) if not q else ob_flagval(2, (1,), False))
     obs.append(ob_flagname(2, 1, one_digit=q))
     obs.append(ob_errors(2))
@@ -217,13 +218,14 @@ def replay(rec):
     inp = rec['inputs'] or {}
     nlabels = d['nlabels']
     top = d.get('fn') == 'flagval'
+    topfirst = d.get('top') == 'first'
     tmp = tempfile.mkdtemp(prefix='c07replay')
     try:
         lines = ['typedef struct {', ' char flag[20];', ' short bit;', ' char label[30];', ' char description[100];', '} maskbits;', '',
                  'typedef struct {', ' char flag[20];', ' char alias[20];', '} maskalias;', '']
         bits = []
         for i in range(nlabels):
-            if top and i == nlabels - 1:
+            if top and ((not topfirst and i == nlabels - 1) or (topfirst and i == 0)):
                 b = 63
             else:
                 d0 = int(inp.get('bit%d_d0' % i, 48)) - 48
